@@ -207,7 +207,7 @@ def step (st : DState) (line : String) : DState × String :=
         | some c =>
           let cur := (st.srv.find? (·.1 == id)).map (·.2) |>.getD {}
           let r := Server.step Server.Cfg.current cur c
-          ({ st with srv := (id, r.1) :: st.srv.filter (·.1 != id) }, "kind=" ++ kindName r.1 ++ " eff=" ++ ",".intercalate (r.2.map effName))
+          ({ st with srv := (id, r.1) :: st.srv.filter (·.1 != id) }, "kind=" ++ kindName r.1 ++ " gen=" ++ toString r.1.chanGen ++ " eff=" ++ ",".intercalate (r.2.map effName))
   | ["tap", "reset", n] =>
     match n.toNat? with
     | some n => ({ st with taps := ⟨n, Array.replicate n 0, Array.replicate n #[], Array.replicate n #[], Array.replicate n #[], Array.replicate n #[]⟩ }, "ok")
